@@ -456,14 +456,14 @@ def gen_single_cases(rng, thorough):
             cases.append((k, [fr + rng.randbytes(rng.randrange(1, 9))], {"gen": "extended", "data_ok": False}))
         # corruptions: status-word positions and random positions
         hot = [0, 1, 8, 9, 10, 11] + ([46, 47, 48, 49, 50, 51] if k.layout == "unit" else [40, 41, 42, 43, 44, 45])
-        for _ in range(120 if thorough else 30):
+        for _ in range(400 if thorough else 30):
             fr = bytearray(rng.choice([good, good, bad, bad2]))
             for _ in range(rng.choice([1, 1, 2, 3])):
                 p = rng.choice(hot) if rng.random() < 0.6 else rng.randrange(len(fr))
                 if p < len(fr):
                     fr[p] = rng.choice([0, 1, 6, 0x80, 0xFF, rng.randrange(256)])
             cases.append((k, [bytes(fr)], {"gen": "corrupt", "data_ok": False}))
-        for _ in range(20 if thorough else 5):
+        for _ in range(60 if thorough else 5):
             cases.append((k, [rng.randbytes(rng.choice([0, 1, 12, 24, 47, 49, 50, 56, 80]))], {"gen": "random", "data_ok": False}))
         cases.append((k, [], {"gen": "no-reply", "data_ok": False}))
     return cases
@@ -537,6 +537,11 @@ def gen_cls_cases(rng, thorough):
             for status in (6, 0):
                 msg = bytes([svc, 0, status, 0]) + b"\x01\x02"
                 cases.append((kind, frame(msg), "service"))
+        if thorough:                    # the whole status x reply-service grid
+            for svc in range(256):
+                for status in range(256):
+                    if status not in (0, 6):
+                        cases.append((kind, frame(bytes([svc, 0, status, 0])), "grid"))
         good = frame(mr(0x4C, 0, b"\xc4\x00\x01\x00\x00\x00"))
         bad = frame(mr(0x4C, 0xFF, b"", b"\x05\x21"))
         for fr in (good, bad):
@@ -546,7 +551,7 @@ def gen_cls_cases(rng, thorough):
             cases.append((kind, frame(mr(0x4C, 0, b"\x01"), status=es), "encap"))
             cases.append((kind, frame(mr(0x4C, 5, b"", b"\x00\x00"), status=es), "encap"))
             cases.append((kind, frame(mr(0x4C, 0, b"\x01"), status=es)[:24], "encap-header-only"))
-        for _ in range(400 if thorough else 80):
+        for _ in range(2000 if thorough else 80):
             fr = bytearray(rng.choice([good, bad]))
             for _ in range(rng.choice([1, 2, 3])):
                 fr[rng.randrange(len(fr))] = rng.randrange(256)
@@ -681,7 +686,7 @@ def gen_multi_cases(rng, thorough):
             for st in range(256):
                 if thorough or pos == 0 or st < 48 or st % 8 == 7:
                     vectors.append([st if j == pos else 0 for j in range(k)])
-        for _ in range(300 if thorough else 60):
+        for _ in range(1000 if thorough else 60):
             vectors.append([rng.choice([0, 0, 4, 5, 6, 0xFF, rng.randrange(256)]) for _ in range(k)])
         for vec in vectors:
             subs = []
@@ -696,6 +701,10 @@ def gen_multi_cases(rng, thorough):
         for st in [1, 2, 5, 8, 0x11, 0x13, 0x15, 0x1E, 0x26, 0xFF] + ([rng.randrange(1, 256) for _ in range(10)] if thorough else []):
             cases.append((mk, [unit(mr(0x0A, st, b""))], {"gen": "top-error-no-data", "wf": True}))
             cases.append((mk, [unit(mr(0x0A, st, b"", struct.pack("<H", 0x2105)))], {"gen": "top-error-no-data", "wf": True}))
+            # two / three additional-status words: nothing of it is service data
+            for ext in (struct.pack("<HH", 0x0080, 0), struct.pack("<HH", 0x8000, 1), struct.pack("<HH", 0x2105, 0), struct.pack("<I", rng.randrange(1 << 32)),
+                        struct.pack("<HHH", 0x0080, 0, 7), struct.pack("<HH", rng.choice([1, 2, 0x80, 0xCC]), rng.choice([0, 1, 2, 4]))):
+                cases.append((mk, [unit(mr(0x0A, st, b"", ext))], {"gen": "top-error-ext-words", "wf": True}))
         for es in [1, 2, 3, 0x64, 0x65, 0x69, 0xFFFFFFFF]:
             fr = unit(mr(0x0A, 0, multi_data(allgood)), status=es)
             cases.append((mk, [fr[:24]], {"gen": "encap-header-only", "wf": True}))
@@ -716,7 +725,7 @@ def gen_multi_cases(rng, thorough):
             for c in cuts:
                 cases.append((mk, [fr[:c]], {"gen": "trunc", "wf": False}))
         hot = list(range(46, 50 + 2 + 2 * k + 4)) + [8, 9, 10, 11]
-        for _ in range(300 if thorough else 60):
+        for _ in range(1000 if thorough else 60):
             fr = bytearray(rng.choice([good, mixed]))
             for _ in range(rng.choice([1, 1, 2, 3])):
                 p = rng.choice(hot) if rng.random() < 0.7 else rng.randrange(len(fr))
@@ -742,6 +751,7 @@ def check_multi(R, mp, cases):
     B.run()
     B2 = Batch(mp)
     pend = []
+    pend_names = []
     for (mk, replies, meta), (a, s, ms, so) in zip(cases, idx):
         impl = impl_call(multi_ispec(mk), replies)
         model = parse_out(B[a])
@@ -773,6 +783,16 @@ def check_multi(R, mp, cases):
             continue
         tags_ = impl[1]
         R.count("outcome", "multi:" + "".join("T" if truthy(t) else "F" for t in tags_))
+        # a well-formed error reply WITHOUT service data: every request fails, with a text naming the status
+        nwords = raw[49] if len(raw) > 49 else 0
+        if sp["hdr"] or (sp["wf"] and not sp["succ"] and len(raw) == 50 + 2 * nwords):
+            cls = ("multi:error-reply-additional-status-read-as-service-data" if (not sp["hdr"] and nwords >= 2 and _encap_ok(raw))
+                   else "multi:error-reply-without-service-data")
+            for i, t in enumerate(tags_):
+                if truthy(t):
+                    _fail(R, "a well-formed error reply without service data gives a truthy result", {**case, "index": i}, impl, "falsy Tags with error text", cls)
+                elif isinstance(t[1], str) and t[1] and not sp["hdr"] and _encap_ok(raw) and sp["gs"] not in (None, 0):
+                    pend_names.append((B2.add(" ".join(["names", "unit", fw.t_bytes(raw), text_tok(t[1])])), {**case, "index": i}, impl, cls))
         if len(tags_) != len(mk[1]):
             _fail(R, "number of results differs from number of requests", case, impl, len(mk[1]), "multi:result-count")
             continue
@@ -792,6 +812,9 @@ def check_multi(R, mp, cases):
                 n = B2.add(" ".join(["namessub", fw.t_bytes(d), text_tok(t[1] or "")])) if not truthy(t) else None
                 pend.append((j, n, i, t, d, case, impl, meta))
     B2.run()
+    for j, case, impl, cls in pend_names:
+        if str(B2[j][0]) != "1":
+            _fail(R, "the error text of a request failed by an error reply does not name the reply's CIP status", case, impl, "names status", cls)
     for j, n, i, t, d, case, impl, meta in pend:
         succ = str(B2[j][1]) == "1"
         if truthy(t) != succ and (not succ or meta.get("wf")):
